@@ -9,14 +9,16 @@ The *independent schema-driven reference codec* of the property statement lives 
 (Go, sharing no code with thriftrw); it judges the implementation directly on every generated input.
 Partial: invariance of the deserialisers under permutation of a reference encoding's STRUCT
 FIELDS is proved (`field_order_irrelevant`, all three deserialisation paths), and so is invariance
-under permutation of the items of a SET (`set_order_irrelevant`: the results are `Equals`, for both
-Go representations of sets); the same for MAP entries is exercised by the harness, not proved; constants are checked by the harness against its own cast
+under permutation of the items of a SET and of the entries of a MAP (`set_order_irrelevant`,
+`map_order_irrelevant`: the results are `Equals`, for both Go representations); on bytes these
+two are exercised by the harness (the theorems are about `FromWire` on wire values); constants are checked by the harness against its own cast
 of the IDL literal (no theorem).
 -/
 import ThriftVerif.Schema.WtProofs
 import ThriftVerif.Schema.InvalidProofs
 import ThriftVerif.Schema.PermProofs
 import ThriftVerif.Schema.PermSets
+import ThriftVerif.Schema.PermMaps
 import ThriftVerif.Schema.LazyRefine
 
 namespace ThriftVerif.Properties.C01
@@ -70,6 +72,19 @@ theorem set_order_irrelevant (env : Env) (fuel : Nat) (e : Ty) (et : UInt8) (ws 
     ∃ g', fromWire env (fuel + 1) (.set e) (.set et ws') = .ok g' ∧
       equalsG env (fuel + 1) (.set e) g g' = true :=
   fromWire_set_order env fuel e et ws ws' hp g h hdec hnd
+
+/-- … and the entries of a map in any order: `FromWire` returns `Equals`-equal values for every
+permutation of a wire map's entries (keys converting to pairwise different decoded values) — for
+Go maps and for key-value slices (unhashable keys) alike. -/
+theorem map_order_irrelevant (env : Env) (fuel : Nat) (k v : Ty) (kt vt : UInt8)
+    (ws ws' : List (WValue × WValue)) (hp : ws.Perm ws') (g : GVal)
+    (h : fromWire env (fuel + 1) (.map k v) (.map kt vt ws) = .ok g)
+    (hdec : decodedV env (fuel + 1) (.map k v) g = true ∨ g = .nil)
+    (hnd : ∀ kvs, mapRes2 (fromWire env fuel k) (fromWire env fuel v) ws = .ok kvs → k.isPrim = true →
+      pairwiseNot keyEq (kvs.map (·.1)) = true) :
+    ∃ g', fromWire env (fuel + 1) (.map k v) (.map kt vt ws') = .ok g' ∧
+      equalsG env (fuel + 1) (.map k v) g g' = true :=
+  fromWire_map_order env fuel k v kt vt ws ws' hp g h hdec hnd
 
 /-- Non-vacuity: a set of three strings in two orders. -/
 example :
